@@ -110,6 +110,9 @@ def probe_all(prop_id):
     """-> (set of active keys, lines to print)."""
     known, _ = load()
     active, lines = set(), []
+    if os.environ.get('VF_CARVE_ALL'):      # development aid only (never set by MANIFEST commands)
+        from . import carve
+        active = set(k for k, (props, _) in carve.REGISTRY.items() if prop_id in props)
     for d in known:
         if d.get('property') != prop_id:
             continue
